@@ -267,7 +267,7 @@ structure CropWF (c : CropIn K) : Prop where
   season_sum : (lsum (c.season.take 12) < 1.001 ∧ 0.999 < lsum (c.season.take 12)) ∨ lsum (c.season.take 12) = 0
   hb_le : harvestBeforeMay c.country c.season ≤ 1
   baseline : 0 ≤ c.baseline
-  ratios : ∀ k, -(5e-9) < ratioAt c.ratios k
+  ratios : ∀ r ∈ c.ratios, -(5e-9) < r
   r1 : ratioAt c.ratios 0 < 101
   exponent : c.relocation = true → 0 < c.exponent ∧ c.exponent ≤ 1
   horizon : c.nmonths ≤ 120
@@ -354,13 +354,22 @@ theorem reductions_getElem? (c : CropIn K) (i : Nat) (hi : i < 120) :
   rw [getElem?_allMonthsReductions, if_pos hi]
   rfl
 
+theorem ratioAt_gt (c : CropIn K) (w : CropWF c) (k : Nat) : -(5e-9) < ratioAt c.ratios k := by
+  unfold ratioAt
+  rw [List.getD_eq_getElem?_getD]
+  cases hg : c.ratios[k]? with
+  | none =>
+    have := eps_pos (K := K)
+    simp only [Option.getD_none]; linarith
+  | some v => simpa using w.ratios v (List.mem_of_getElem? hg)
+
 theorem ratioYearRaw_gt (c : CropIn K) (w : CropWF c) (i : Nat) : -(5e-9) < ratioYearRaw c i := by
   unfold ratioYearRaw
   split_ifs
   · have := year1Spec_nonneg (ratioAt c.ratios 0) c.season c.country w.hb_le
     have := eps_pos (K := K)
     linarith
-  · exact w.ratios _
+  · exact ratioAt_gt c w _
 
 theorem ratioYearSpec_nonneg (c : CropIn K) (i : Nat) : 0 ≤ ratioYearSpec c i := by
   unfold ratioYearSpec
@@ -1560,7 +1569,7 @@ theorem range_split (Y : Nat) (hY : 2 ≤ Y) :
   rw [getElem?_range_ite, List.getElem?_append, List.getElem?_append]
   simp only [List.length_append, List.length_cons, List.length_nil, List.length_map, List.length_range,
     List.getElem?_singleton, getElem?_map_range]
-  split_ifs <;> first | rfl | omega | (congr 1; omega)
+  split_ifs <;> first | rfl | omega | (congr 1 <;> omega)
 
 /-- the loop of `MeatAndDairy.__init__` for a horizon of `Y ≥ 2` whole years -/
 theorem grassTons_eq (Y : Nat) (hY : 2 ≤ Y) (base : K) (ratio : Nat → K) :
@@ -1572,20 +1581,18 @@ theorem grassTons_eq (Y : Nat) (hY : 2 ≤ Y) (base : K) (ratio : Nat → K) :
   have hdiv : 12 * Y / 12 = Y := by omega
   rw [hdiv, foldl_append_flatMap, List.nil_append, List.range'_eq_map_range, List.flatMap_map, range_split Y hY]
   simp only [List.flatMap_append, List.flatMap_map, List.flatMap_cons, List.flatMap_nil, List.append_nil]
-  congr 1
-  · congr 1
-    · simp
-    · apply flatMap_congr'
-      intro k hk
-      have hk' := List.mem_range.mp hk
-      have h1 : ¬ (1 + (k + 1) = 1) := by omega
-      have h2 : ¬ (12 * (1 + (k + 1)) = 12 * Y) := by omega
-      have h3 : 1 + (k + 1) = k + 2 := by omega
-      simp only [h1, h2, if_false, h3]
-  · have h1 : ¬ (1 + (Y - 1) = 1) := by omega
-    have h2 : 12 * (1 + (Y - 1)) = 12 * Y := by omega
-    have h3 : 1 + (Y - 1) = Y := by omega
-    simp only [h1, h2, if_false, if_true, h3]
+  refine congrArg₂ (· ++ ·) (congrArg₂ (· ++ ·) ?_ ?_) ?_
+  · simp
+  · apply flatMap_congr'
+    intro k hk
+    have hk' := List.mem_range.mp hk
+    have h3 : 1 + (k + 1) = k + 2 := by omega
+    have h1 : ¬ (k + 2 = 1) := by omega
+    have h2 : ¬ (12 * (k + 2) = 12 * Y) := by omega
+    rw [h3, if_neg h1, if_neg h2]
+  · have h3 : 1 + (Y - 1) = Y := by omega
+    have h1 : ¬ (Y = 1) := by omega
+    rw [h3, if_neg h1, if_pos rfl]
 
 theorem getElem?_grassTons (Y : Nat) (hY : 2 ≤ Y) (base : K) (ratio : Nat → K) (i : Nat) :
     (grassTons (12 * Y) base ratio)[i]? =
@@ -1671,5 +1678,56 @@ theorem grassSpec_scale (n : Nat) (base k : K) (ratios : List K) (i : Nat) :
 theorem grassTons_twelve (base : K) (ratio : Nat → K) : grassTons 12 base ratio = List.replicate 8 (ratio 1 * base) := by
   unfold grassTons
   simp
+
+
+/-! ## list-level corollaries used by the property files -/
+
+theorem cropWF_setRelocation (c : CropIn K) (r : Bool) (w : CropWF c)
+    (he : r = true → 0 < c.exponent ∧ c.exponent ≤ 1) : CropWF (setRelocation c r) :=
+  { start := w.start, season_len := w.season_len, ratios_len := w.ratios_len, season_nonneg := w.season_nonneg,
+    season_sum := w.season_sum, hb_le := w.hb_le, baseline := w.baseline, ratios := w.ratios,
+    r1 := w.r1, exponent := he, horizon := w.horizon, ramp := w.ramp }
+
+theorem cropWF_setRatioArea_one (c : CropIn K) (w : CropWF c) : CropWF (setRatioArea c 1) :=
+  { start := w.start, season_len := w.season_len, ratios_len := w.ratios_len, season_nonneg := w.season_nonneg,
+    season_sum := w.season_sum, hb_le := w.hb_le, baseline := w.baseline, ratios := w.ratios,
+    r1 := w.r1, exponent := w.exponent, horizon := w.horizon,
+    ramp := fun h => absurd h (lt_irrefl (1 : K)) }
+
+theorem ghYieldSpec_nonneg (pow : K → K → K) (hp : PowOK pow) (c : CropIn K) (w : CropWF c) (g : GhIn K)
+    (i : Nat) (ht : 0 ≤ ghTotal g) (hw : c.waste ≤ 100) (hwr : g.wasteRetail ≤ 100) (hg : -100 ≤ g.gainPct) :
+    0 ≤ ghYieldSpec pow c g i := by
+  unfold ghYieldSpec
+  split_ifs with h
+  · have hpos : 0 < ghTotal g := lt_of_le_of_ne ht (fun h0 => h.2 ((noCropland_iff g).mpr h0.symm))
+    have h1 := wasteFactor_nonneg c.waste hw
+    have h2 := wasteFactor_nonneg g.wasteRetail hwr
+    have h3 : 0 ≤ lsum (monthsCycle c.startMonth c.baseline c.season) / 12.0 / ghTotal g := by
+      apply div_nonneg _ hpos.le
+      apply div_nonneg (lsum_nonneg _ (cycle_nonneg c w.season_nonneg w.baseline))
+      norm_num
+    have h4 := relocGain_nonneg pow hp (expSpec c) _ (expSpec_range c w) (ratioYearSpec_nonneg c i)
+    have h5 : 0 ≤ 1 + g.gainPct / 100.0 := by
+      rw [sci_100]
+      have : -1 ≤ g.gainPct / 100 := by rw [le_div_iff₀ (by norm_num)]; linarith
+      linarith
+    exact mul_nonneg (mul_nonneg (mul_nonneg (mul_nonneg h1 h2) (mul_nonneg h3 h4)) zero_le_one) h5
+  · exact le_rfl
+
+theorem ghAreaSpec'_nonneg (g : GhIn K) (i : Nat) (ht : 0 ≤ ghTotal g) (hm : 0 ≤ g.areaMultiplier) :
+    0 ≤ ghAreaSpec' g i := by
+  unfold ghAreaSpec'
+  split_ifs
+  · exact ghAreaSpec_nonneg _ _ _ (ghLimit_nonneg g ht hm)
+  · exact le_rfl
+
+theorem ghCropsSpec_nonneg (pow : K → K → K) (hp : PowOK pow) (c : CropIn K) (w : CropWF c) (g : GhIn K)
+    (i : Nat) (ht : 0 ≤ ghTotal g) (hm : 0 ≤ g.areaMultiplier) (hw : c.waste ≤ 100) (hwr : g.wasteRetail ≤ 100)
+    (hg : -100 ≤ g.gainPct) : 0 ≤ ghCropsSpec pow c g i :=
+  mul_nonneg (ghYieldSpec_nonneg pow hp c w g i ht hw hwr hg) (ghAreaSpec'_nonneg g i ht hm)
+
+theorem map_range_scale (f g : Nat → K) (k : K) (n : Nat) (h : ∀ i, f i = k * g i) :
+    (List.range n).map f = ((List.range n).map g).map (k * ·) := by
+  rw [List.map_map]; apply List.map_congr_left; intro i _; exact h i
 
 end Allfed.Proofs.Supply
